@@ -146,6 +146,22 @@ pub fn workload(seed: u64, shard: usize, of: usize, cases: usize, miri: bool) ->
                 bump(if r.is_ok() { "lazy_reader_api_returned" } else { "lazy_reader_api_panicked" }, 1);
             }
         }
+        // 3d. a reader that runs another YAML translation on the same thread from inside read(), then checks
+        //     that the buffer it was lent still holds what it stored (two live parsers must not share memory)
+        {
+            let inner: &[u8] = b"---\ninner: [document, of, the, nested, translation]\nzzz: 1\n---\nsecond: 2\n";
+            let clobbered = std::rc::Rc::new(std::cell::RefCell::new(0u64));
+            for from in [Some(xt::Format::Yaml), None] {
+                let rd = crate::mon::NestingReader { data: &input, pos: 0, max_read: *rng.pick(&[5usize, 64, 4096, 1 << 20]), inner, nest_on_call: rng.below(3) as u64, calls: 0, clobbered: clobbered.clone() };
+                let mut out = Vec::new();
+                let r = guarded_any(|| xt::translate_reader(rd, from, to.xt(), &mut out).is_ok());
+                bump(if r.is_ok() { "nesting_reader_api_returned" } else { "nesting_reader_api_panicked" }, 1);
+                if miri {
+                    break;
+                }
+            }
+            bump("reader_buffer_changed_during_a_nested_translation", *clobbered.borrow());
+        }
         // (large boundary inputs: the event-by-event stages below add nothing)
         if input.len() > 30_000 {
             let _ = guarded_any(|| xt::verif::yaml_chunks(SchedReader::new(&input, Sched::All), 4).len());
@@ -438,6 +454,12 @@ pub fn run(ctx: &Ctx) -> i32 {
             acc.violation(Violation { sig: "parser/event creations and drops do not balance".into(), case: json!({"instrument": "conservation", "prefix": pre}), observed: format!("Parser new {pn} / drop {pd}; Event new {en} / drop {ed}"), expected: "every Parser and Event dropped exactly once".into() });
         }
     }
+    for pre in ["", "miri_"] {
+        let n = g(&format!("{pre}reader_buffer_changed_during_a_nested_translation"));
+        if n > 0 {
+            acc.violation(Violation { sig: "a reader's exclusively borrowed buffer changed under it while a nested translation ran".into(), case: json!({"instrument": "nesting reader", "prefix": pre}), observed: format!("{n} read() calls found other bytes in their buffer after running a second YAML translation on the same thread"), expected: "the buffer lent to read() is not shared with any other parser".into() });
+        }
+    }
     for (k, v) in &totals {
         acc.add(k, *v);
     }
@@ -446,10 +468,10 @@ pub fn run(ctx: &Ctx) -> i32 {
         acc.distinct(&i);
     }
     acc.sample(json!({"asan_shards": shards, "cases_per_shard": cases_per_shard, "miri_cases_per_shard": miri_cases, "example_shard_command": format!("{bin} workload --seed {} --shard 0 --of {shards} --cases {cases_per_shard}", ctx.seed)}));
-    let rule = format!("AddressSanitizer+LeakSanitizer: {} shards x {} corpus inputs (mixed corpus, UTF-16/32 re-encodings, every fifth one a ~45 KiB YAML text with multi-byte characters on every alignment around the 8/16/24/32 KiB read boundaries) each driven as YAML explicit and detected through the public API with read sizes 1..17 / random / whole, reader errors at sampled offsets, over-reporting readers (excess 1..64, first/second/third call) straight into the raw parser and the chunker via the hook and through the public API, readers that panic inside read() or in their destructor, safe readers that look at the buffer's old contents before filling it or report n bytes having stored n-1 (sound only if the buffer handed out is initialised memory; an uninitialised one is a Miri report), early drop of the parser after EVERY event count, chunker abandoned after one document, re-encoder surrogate/range boundary units; Miri: {} shards x {} seed inputs of the same workload; valgrind memcheck on the release binary in the thorough tier; conservation of Parser/Event new vs drop; distinct non-trivial = inputs driven", shards, cases_per_shard, shards, miri_cases);
+    let rule = format!("AddressSanitizer+LeakSanitizer: {} shards x {} corpus inputs (mixed corpus, UTF-16/32 re-encodings, every fifth one a ~45 KiB YAML text with multi-byte characters on every alignment around the 8/16/24/32 KiB read boundaries) each driven as YAML explicit and detected through the public API with read sizes 1..17 / random / whole, reader errors at sampled offsets, over-reporting readers (excess 1..64, first/second/third call) straight into the raw parser and the chunker via the hook and through the public API, readers that panic inside read() or in their destructor, safe readers that look at the buffer's old contents before filling it or report n bytes having stored n-1 (sound only if the buffer handed out is initialised memory; an uninitialised one is a Miri report), a reader that runs a second YAML translation on the same thread from inside read() and then checks that its buffer is unchanged, early drop of the parser after EVERY event count, chunker abandoned after one document, re-encoder surrogate/range boundary units; Miri: {} shards x {} seed inputs of the same workload; valgrind memcheck on the release binary in the thorough tier; conservation of Parser/Event new vs drop; distinct non-trivial = inputs driven", shards, cases_per_shard, shards, miri_cases);
     let mut extra = serde_json::Map::new();
     extra.insert("explanation".into(), json!("sanitizer verdict: zero AddressSanitizer/LeakSanitizer/Miri reports over the executed workload; a clean run says nothing about paths the workload did not reach"));
-    let mut f = Finish { ctx, level: "other", rule, assumptions: vec!["red-zone tools miss intra-object overflows; Miri covers part of that gap on the smaller workload".into(), "panics are an allowed outcome for contract-violating readers and are counted".into()], extra, exhaustive: false, min_distinct: 100, must_reach: vec![("leak_detector_selftest_fired".into(), 1), ("asan_shards_clean".into(), shards as u64), ("miri_shards_clean".into(), shards as u64), ("hit_READ_HANDLER_OVER_REPORT".into(), 10), ("hit_READ_HANDLER_ERROR".into(), 10), ("early_drop_points".into(), 1000), ("inputs_boundary_straddling".into(), 50), ("readers_panicking_in_drop".into(), 100), ("lazy_reader_api_returned".into(), 100)] };
+    let mut f = Finish { ctx, level: "other", rule, assumptions: vec!["red-zone tools miss intra-object overflows; Miri covers part of that gap on the smaller workload".into(), "panics are an allowed outcome for contract-violating readers and are counted".into()], extra, exhaustive: false, min_distinct: 100, must_reach: vec![("leak_detector_selftest_fired".into(), 1), ("asan_shards_clean".into(), shards as u64), ("miri_shards_clean".into(), shards as u64), ("hit_READ_HANDLER_OVER_REPORT".into(), 10), ("hit_READ_HANDLER_ERROR".into(), 10), ("early_drop_points".into(), 1000), ("inputs_boundary_straddling".into(), 50), ("readers_panicking_in_drop".into(), 100), ("lazy_reader_api_returned".into(), 100), ("nesting_reader_api_returned".into(), 100)] };
     if !acc.violations.is_empty() {
         f.must_reach.clear();
     }
